@@ -19,12 +19,16 @@ RE(S) == RandomElement(IF Len(hist) >= 0
                          THEN ((S \ Failing) \X (1..GoodWeight)) \cup ((S \cap Failing) \X {1})
                          ELSE {})[1]
 Pick(fk, row) == IF fk = "ok" THEN row ELSE IF fk = "shipped" THEN Shipped ELSE [Unset EXCEPT !.fk = fk]
-RandRow == Pick(RE(FK \cup (IF WithShipped THEN {"shipped"} ELSE {})),
+\* the shipped file is drawn for about one row in sixteen
+DrawShipped == WithShipped /\ RandomElement(IF Len(hist) >= 0 THEN 1..16 ELSE {}) = 1
+RandRow == IF DrawShipped THEN Shipped ELSE
+           Pick(RE(FK),
                 [ld |-> RE(LD), lc |-> RE(LC), nd |-> RE(ND), nc |-> RE(NC),
                  cbs |-> RE(CBS), cas |-> RE(CAS), cbd |-> RE(CBD),
                  pbl |-> RE(PBL), geo |-> RE(GEO), wk |-> RE(WK),
                  pub |-> RE(PUB), fk |-> "ok"])
-RandRRow == Pick(RE(RFK \cup (IF WithShipped THEN {"shipped"} ELSE {})),
+RandRRow == IF DrawShipped THEN Shipped ELSE
+            Pick(RE(RFK),
                  [Unset EXCEPT !.cbs = RE(RCBS), !.cas = RE(RCAS), !.cbd = RE(RCBD),
                                !.pbl = RE(RPBL), !.geo = RE(RGEO), !.pub = RE(RPUB)])
 
